@@ -108,6 +108,14 @@ order_by that share a name (two `def sort_key`) are analysed through a stand-in;
 `_in_` (C18-r91: `_not_in_` also ends with `_in_`); a remove_all without a `remove` call per match that assigns / deletes
 something is another design (UNDECIDED), not a missing removal.
 
+Round 10: `search` written with for/else (`break` on the first rejecting filter, `else: return True`, `return False` after the
+loop): what `break` leads to is computed, `break` then counts as a rejection; a template-method `remove` (None check, membership
+guard, `self._remove_existing(task)`) is followed into the hook of the concrete class for remove_each; a table-driven resolver
+(`TABLE.get(name)` / `name in TABLE` / `TABLE[name](t)` over a dict literal {'<attribute>': function or lambda of the task}) is
+evaluated per attribute; a key that is EXTENDED before the dispatch (`k += '_'`, `k = k + '_'`, f-string) is refuted (C18-r101:
+`opt_in=True` becomes an `_in_` filter on `opt`); a walker that unlinks the task from `task.parent` instead of searching below
+the current node is refuted by name (C18-r102), and "does not descend" is no longer said about a removal of another design.
+
 Shapes followed since round 3: the attribute resolver is today's `__get_task_attribute` or - when that anchor is gone - the
 one package function `search` calls as `<fn>(<task>, <name>)` (moved to module level, to another class, nested in `__call__`);
 a filter of the result comprehension / selection loop that calls a predicate nested in `__call__` (or a local bound to a
@@ -1245,9 +1253,24 @@ def _suffix_table(ctx):
             o.undecided(f, f.node, 'search', f"expected exactly one loop over the keyword filters, found {len(loops)}")
             return
         loop, env0 = loops[0]
+        break_rejects = False
         if loop.orelse:
-            o.undecided(f, loop, 'for-else', "for/else in search")
-            return
+            # for .. else: `break` on the first rejecting filter, `else: return True`, `return False` after the loop
+            if not any(st is loop for st in f.body):
+                o.undecided(f, loop, 'for-else', "for/else in search (not a top-level statement)")
+                return
+            rest = f.body[[i for i, st in enumerate(f.body) if st is loop][0] + 1:]
+            try:
+                outer = _run(list(loop.orelse) + rest, dict(env0), [], None)          # the loop ran to its end
+                after_break = _run(rest, dict(env0), [], None)
+            except _Undecided as u:
+                o.undecided(f, u.node, u.node, u.msg)
+                return
+            if after_break and all(p.kind == 'return' and _is_const(p.value, False) for p, _ in after_break):
+                break_rejects = True
+            elif not all(p.kind == 'return' and _is_const(p.value, True) for p, _ in after_break):
+                o.undecided(f, loop, 'for-else', "what `break` in the filter loop leads to is not a constant result")
+                return
         # ---- loop header:  for k, v in kw.items()   |   for k in kw  (+ v = kw[k])
         it = subst(loop.iter, env0)
         while isinstance(it, ast.Call) and isinstance(it.func, ast.Name) and it.func.id in ('list', 'tuple', 'sorted', 'iter') \
@@ -1267,6 +1290,27 @@ def _suffix_table(ctx):
         else:
             o.undecided(f, loop, loop.iter, "the filter loop is not `for k, v in <kwargs>.items()`")
             return
+        # ---- the keyword must reach the dispatch as the caller wrote it: a key that is EXTENDED first (`k += '_'`,
+        #      `k = k + '_'`) lets a plain keyword whose attribute name ends like an operator (`opt_in`, `size_le`) be read as an
+        #      operator filter on a shorter attribute
+        for n in [x for st in loop.body for x in walk_no_nested(st)]:
+            grown = None
+            if isinstance(n, ast.AugAssign) and isinstance(n.op, ast.Add) and isinstance(n.target, ast.Name) and n.target.id == key_v:
+                grown = n
+            elif isinstance(n, ast.Assign) and len(n.targets) == 1 and isinstance(n.targets[0], ast.Name) and n.targets[0].id == key_v:
+                def grows(v):
+                    if isinstance(v, ast.IfExp):
+                        return grows(v.body) or grows(v.orelse)
+                    return (isinstance(v, ast.BinOp) and isinstance(v.op, ast.Add) and isinstance(v.left, ast.Name) and v.left.id == key_v) or \
+                        (isinstance(v, ast.JoinedStr) and bool(v.values) and isinstance(v.values[0], ast.FormattedValue) and
+                         isinstance(v.values[0].value, ast.Name) and v.values[0].value.id == key_v and len(v.values) > 1)
+                if grows(n.value):
+                    grown = n
+            if grown is not None:
+                o.refute(f, grown, grown, f"`{src(grown)}` rewrites the keyword before the suffix dispatch: a plain keyword (equality filter) "
+                                          f"whose attribute name ends like an operator - `opt_in`, `size_le`, `looks_like` - becomes an "
+                                          f"operator filter on a shorter attribute; a plain keyword means equality on exactly that name")
+                return
         # ---- outside the loop every exit must be `return True`
         for p, _ in outer:
             if p.kind == 'raise':
@@ -1299,12 +1343,12 @@ def _suffix_table(ctx):
         paths = split
         V = _SearchVocab(task_p, key_v, val_is, resolver.name)
         for suffix in SPEC:
-            _one_suffix(o, f, V, paths, suffix, tables)
+            _one_suffix(o, f, V, paths, suffix, tables, break_rejects)
 
     ctx.guarded(o, body)
 
 
-def _one_suffix(o, f, V: _SearchVocab, paths: List[_Path], suffix: str, tables: '_Tables'):
+def _one_suffix(o, f, V: _SearchVocab, paths: List[_Path], suffix: str, tables: '_Tables', break_rejects: bool = False):
     label = f"`{suffix}`" if suffix else "plain keyword (no suffix)"
     fam, op = SPEC[suffix]
     feasible: List[Tuple[_Path, list, Optional[str]]] = []
@@ -1391,6 +1435,8 @@ def _one_suffix(o, f, V: _SearchVocab, paths: List[_Path], suffix: str, tables: 
                 return
         elif p.kind in ('fall', 'continue'):
             outcome = 'pass'
+        elif p.kind == 'break' and break_rejects:
+            outcome = 'reject'        # for/else: after `break` the function returns False
         elif p.kind == 'break':
             o.refute(f, p.node, p.node, f"{label}: `break` leaves the filter loop: the remaining filters are not evaluated")
             return
@@ -1575,8 +1621,34 @@ def _resolver(ctx):
         def is_dict(e):
             return bool(match(f"{T}.__dict__", e) or match(f"vars({T})", e))
 
+        rtables = _Tables(f)
+
+        def table_entry(e, attr):
+            """`TABLE.get(NAME)` / `TABLE[NAME]` for a dict literal {'<attribute>': <function of the task>} bound once at module /
+            class level -> (True, entry or None); not such a lookup -> (False, None)"""
+            tab = key = None
+            if isinstance(e, ast.Call) and isinstance(e.func, ast.Attribute) and e.func.attr == 'get' and not e.keywords \
+                    and len(e.args) in (1, 2) and is_name(e.args[0]) and (len(e.args) == 1 or _is_const(e.args[1], None)):
+                tab = rtables.lookup(e.func.value)
+            elif isinstance(e, ast.Subscript) and is_name(e.slice):
+                tab = rtables.lookup(e.value)
+            if tab is None:
+                return False, None
+            return True, tab.get(attr)
+
         def atom_truth(e, attr, has_parent):
             """truth value of a resolver condition for the attribute `attr` (None = not understood)"""
+            hit_t, ent = table_entry(e, attr)
+            if hit_t:
+                return ent is not None
+            if isinstance(e, ast.Compare) and len(e.ops) == 1 and isinstance(e.ops[0], (ast.Is, ast.IsNot)) \
+                    and _is_const(e.comparators[0], None):
+                hit_t, ent = table_entry(e.left, attr)
+                if hit_t:
+                    return (ent is None) == isinstance(e.ops[0], ast.Is)
+            if isinstance(e, ast.Compare) and len(e.ops) == 1 and isinstance(e.ops[0], (ast.In, ast.NotIn)) and is_name(e.left) \
+                    and rtables.lookup(e.comparators[0]) is not None:
+                return (attr in rtables.lookup(e.comparators[0])) == isinstance(e.ops[0], ast.In)
             if isinstance(e, ast.Compare) and len(e.ops) == 1:
                 l, op, r = e.left, e.ops[0], e.comparators[0]
                 if isinstance(op, (ast.Eq, ast.NotEq)):
@@ -1606,10 +1678,27 @@ def _resolver(ctx):
                 return has_parent
             return None
 
-        def value_kind(v, attr):
+        def value_kind(v, attr, has_parent=True, depth=0):
             """'read' (real attribute read of attr) | 'dict' (instance dict only) | 'none' | 'parent.id' | None"""
             if _is_const(v, None):
                 return 'none'
+            if isinstance(v, ast.IfExp) and depth < 4:
+                tv = atom_truth(v.test, attr, has_parent)
+                return None if tv is None else value_kind(v.body if tv else v.orelse, attr, has_parent, depth + 1)
+            if isinstance(v, ast.Call) and len(v.args) == 1 and not v.keywords and is_task(v.args[0]) and depth < 4:
+                # <table entry>(task): the function the table holds for this attribute, applied to the task
+                hit_t, ent = table_entry(v.func, attr)
+                if hit_t and ent is not None:
+                    g = None
+                    if isinstance(ent, ast.Name):
+                        g = prog.module_func(f.module.name, ent.id)
+                    if isinstance(ent, ast.Lambda) and len(ent.args.args) == 1:
+                        return value_kind(subst(ent.body, {ent.args.args[0].arg: v.args[0]}), attr, has_parent, depth + 1)
+                    if g is not None and isinstance(g.node, ast.FunctionDef) and len(g.params) == 1:
+                        gb = [st for st in g.node.body if not (isinstance(st, ast.Expr) and isinstance(st.value, ast.Constant))]
+                        if len(gb) == 1 and isinstance(gb[0], ast.Return) and gb[0].value is not None:
+                            return value_kind(subst(gb[0].value, {g.params[0]: v.args[0]}), attr, has_parent, depth + 1)
+                    return None
             if match(f"getattr({T}, {NM}, None)", v) or match(f"getattr({T}, {NM})", v) or match(f"{T}.__getattribute__({NM})", v) \
                     or match(f"object.__getattribute__({T}, {NM})", v):
                 return 'read'
@@ -1667,7 +1756,7 @@ def _resolver(ctx):
                 if hit.kind == 'fall':
                     vk, vnode, vexpr = 'none', f.node, 'implicit return None'
                 elif hit.kind == 'return':
-                    vk, vnode, vexpr = value_kind(hit.value, attr), hit.node, hit.value
+                    vk, vnode, vexpr = value_kind(hit.value, attr, has_parent), hit.node, hit.value
                 else:
                     o.undecided(f, hit.node, hit.node or attr, f"resolver path for `{attr}` ends in {hit.kind}")
                     return
@@ -1691,7 +1780,8 @@ def _resolver(ctx):
                 why = "is looked up in the instance `__dict__` only" if vk == 'dict' else \
                     ("resolves to None" if vk == 'none' else f"resolves to `{src(vexpr)}`")
                 extra = (": it is backed by a property (the instance dict holds the mangled field), so filters on it never see its "
-                         "value - `tasks(%s=..)` matches nothing and `%s_is_none_` matches every task" % (attr, attr)) if is_prop else ''
+                         "value - `tasks(%s=..)` matches nothing and `%s_is_none_` matches every task" % (attr, attr)) \
+                    if is_prop and vk in ('dict', 'none') else ''
                 if isinstance(vk, str) and vk.startswith('other:parent.') and attr == CUSTOM_PARENT:
                     extra = (": a task's own attribute whose name starts with `parent_` is shadowed - filters on it read the PARENT's "
                              "attribute (None without a parent); only `parent_id` is a pseudo attribute")
@@ -3062,7 +3152,19 @@ def _remove_all(ctx):
             o.refute(f, f.node, 'children.remove', f"the tree walk never removes the task from the current node's children "
                                                    f"(`{CUR}.children.remove({TASK})` missing)")
         else:
-            o.undecided(f, all_removes[0], all_removes[0], f"`{src(all_removes[0])}` is not recognised as `{CUR}.children.remove({TASK})`")
+            c0 = all_removes[0]
+            cn0 = cfg.node_containing(c0)
+            recv0 = ex.expand(c0.func.value, cn0) if cn0 is not None and isinstance(c0.func, ast.Attribute) else None
+            via_parent = recv0 is not None and any(isinstance(n, ast.Attribute) and n.attr in ('parent', '_Task__parent') and
+                                                   match(TASK, n.value) for n in ast.walk(recv0))
+            if via_parent and len(c0.args) == 1 and match(TASK, c0.args[0]):
+                o.refute(f, c0, c0, f"`{src(c0)}` (receiver `{src(recv0)[:80]}`) unlinks the task from its OWN parent, wherever that is, instead "
+                                    f"of looking for it below `{CUR}`: a match that already left the WBS together with a matching ancestor "
+                                    f"is torn out of that detached subtree (the walk from the root simply would not find it)")
+            else:
+                o.undecided(f, c0, c0, f"`{src(c0)}` is not recognised as `{CUR}.children.remove({TASK})`")
+            if not any(g.name in by_name for _, g in self_calls(f)):
+                return           # another design of the removal: "it does not descend" would not be a statement about this code
         rec = [(c, by_name[g.name]) for c, g in self_calls(f) if g.name in by_name]
         if not rec and unfollowed:
             o.undecided(f, f.node, 'recursion', f"no recursive descent in {f.qual}, but it calls {unfollowed[0].qual}, which this "
@@ -3368,10 +3470,39 @@ def _remove_each(ctx):
                 continue
             o.site(f, node, f"{src(tgt)} rebuilt from `{src(source)}`; the {P} setter updates `{unmangle(F)}` in place")
 
+    def trivial(g) -> bool:
+        return all(isinstance(st, ast.Pass) or (isinstance(st, ast.Expr) and isinstance(st.value, ast.Constant)) for st in g.node.body)
+
+    def impl_of(ci, f, depth=0):
+        """the method that does the work for the concrete class ci: `remove` itself, or - when `remove` is a template method
+        (None check, membership guard, `self._remove_existing(task)`) - the hook as implemented in ci.  None: abstract here."""
+        if trivial(f):
+            return None
+        if depth > 2 or len(f.params) < 2:
+            return f
+        SELF, TASK = f.params[0], f.params[1]
+        has_store = any(not (isinstance(t.value, ast.Name) and t.value.id == SELF) for _, t, _ in facts.attr_stores(f)) or any(
+            isinstance(n, ast.Call) and isinstance(n.func, ast.Name) and n.func.id == 'setattr' for n in walk_no_nested(f.node))
+        if has_store:
+            return f
+        for n in walk_no_nested(f.node):
+            if isinstance(n, ast.Call) and isinstance(n.func, ast.Attribute) and isinstance(n.func.value, ast.Name) \
+                    and n.func.value.id == SELF and len(n.args) == 1 and not n.keywords and match(TASK, n.args[0]):
+                g = prog.find_method(ci.name, unmangle(n.func.attr))
+                if g is not None and g.kind == 'method' and len(g.params) == 2 and g.name not in ('remove', 'index', 'append') \
+                        and isinstance(g.node, ast.FunctionDef):
+                    if trivial(g):
+                        return None if prog.subclasses(ci.name) else f
+                    return impl_of(ci, g, depth + 1)
+        return f
+
     def body(o):
         for ci in sorted(prog.subclasses('_TaskList'), key=lambda c: c.name):
             f = prog.find_method(ci.name, 'remove')           # own or inherited from a shared base (e.g. a _LinkList)
-            if f is not None and f.cls != '_TaskList':
+            if f is None:
+                continue
+            f = impl_of(ci, f)
+            if f is not None:
                 one(o, ci, f)
 
     ctx.guarded(o, body)
